@@ -47,6 +47,7 @@ type Case struct {
 	Class    string `json:"class"`
 	Where    string `json:"where"`
 	Note     string `json:"note,omitempty"`
+	Sink     string `json:"sink,omitempty"` // "" | zson | zjson: values are also written to this writer (zio.Copy)
 	Data     []byte `json:"data"`
 }
 
@@ -156,11 +157,20 @@ func execRead(c *Case, res *Result) {
 		fmt.Sscan(mode[i+1:], &stopAt)
 		mode = mode[:i]
 	}
+	var sink zio.WriteCloser
+	if c.Sink != "" && (!binary || c.Opts.Validate) {
+		sink, _ = anyio.NewWriter(nopWC{&bytes.Buffer{}}, anyio.WriterOpts{Format: c.Sink})
+	}
 	check := func(v zed.Value) bool {
 		if c.Opts.Validate && binary {
 			if why := structCheck(v.Type(), v.Bytes(), 0); why != "" {
 				res.Outcome, res.Detail = "invalid", why
 				return false
+			}
+		}
+		if sink != nil {
+			if err := sink.Write(v); err != nil {
+				sink = nil // a writer error ends the copy; that is a legal outcome
 			}
 		}
 		return true
@@ -292,6 +302,9 @@ func runCase(c *Case) (res Result) {
 			done <- r
 		}()
 		switch c.Kind {
+		case "detect":
+			b, _ := json.Marshal(detectInfo(c))
+			r.Detected = string(b)
 		case "query":
 			execQuery(c, &r)
 		case "proto":
@@ -358,14 +371,16 @@ func allocCeiling(c *Case) uint64 {
 	return slack + 256*uint64(len(c.Data))
 }
 
-// childMain: `<bin> --c11-child <casefile> <from> <shard> <nshards>`
+// childMain: `<bin> --c11-child <shardfile> <byte offset>`
 func childMain(args []string) {
-	var from, shard, nshards int
-	fmt.Sscan(args[1], &from)
-	fmt.Sscan(args[2], &shard)
-	fmt.Sscan(args[3], &nshards)
+	var off int64
+	fmt.Sscan(args[1], &off)
 	f, err := os.Open(args[0])
 	if err != nil {
+		fmt.Fprintln(os.Stderr, err)
+		os.Exit(4)
+	}
+	if _, err := f.Seek(off, io.SeekStart); err != nil {
 		fmt.Fprintln(os.Stderr, err)
 		os.Exit(4)
 	}
@@ -373,18 +388,13 @@ func childMain(args []string) {
 	sc := bufio.NewScanner(f)
 	sc.Buffer(make([]byte, 1<<20), 64<<20)
 	installHook()
-	idx := -1
 	for sc.Scan() {
-		idx++
-		if idx < from || idx%nshards != shard {
-			continue
-		}
 		var c Case
 		if err := json.Unmarshal(sc.Bytes(), &c); err != nil {
 			fmt.Fprintln(os.Stderr, "bad case line:", err)
 			os.Exit(4)
 		}
-		fmt.Fprintf(out, "B %d\n", idx)
+		fmt.Fprintf(out, "B %d\n", c.ID)
 		out.Flush()
 		res := runCase(&c)
 		if res.Outcome == "ok" && res.Alloc > allocCeiling(&c) {
@@ -392,7 +402,7 @@ func childMain(args []string) {
 			res.Detail = fmt.Sprintf("allocated %d bytes for a %d-byte input (ceiling %d)", res.Alloc, len(c.Data), allocCeiling(&c))
 		}
 		b, _ := json.Marshal(res)
-		fmt.Fprintf(out, "R %d %s\n", idx, b)
+		fmt.Fprintf(out, "R %d %s\n", c.ID, b)
 		out.Flush()
 		if res.Outcome == "hang" || res.Outcome == "leak" {
 			// stuck goroutines would disturb later cases: restart
